@@ -219,14 +219,21 @@ def r3_declared_types(ctx, rep):
 def r4_metadata_split(ctx, rep):
     py = ctx.py
     rm = py.func("FortranBase.read_metadata")
-    t = ast.unparse(rm)
-    ok = "meta, self.doc_list = ford.utils.meta_preprocessor(self.doc_list)" in t and "self.meta.update(meta" in t
+    mp = [n for n in ast.walk(rm) if isinstance(n, ast.Assign) and isinstance(n.value, ast.Call)
+          and call_name(n.value).endswith("meta_preprocessor")]
+    ok = bool(mp) and "self.doc_list" in astq.target_names(mp[0].targets[0]) and \
+        [ast.unparse(a) for a in mp[0].value.args] == ["self.doc_list"] and \
+        any(isinstance(c, ast.Call) and call_name(c) == "self.meta.update" for c in ast.walk(rm))
     rep.ob("read_metadata splits metadata from the body", ok, "", py.nloc(rm))
-    ok = "len(self.doc_list) == 1 and ':' in self.doc_list[0]" in t and "self.doc_list.insert(0, '')" in t
-    rep.ob("a one-line comment containing ':' is not mistaken for metadata", ok, "", py.nloc(rm))
+    ev = astq.trace(rm)
+    guard = [e for e in ev if e.kind == "call" and call_name(e.node) == "self.doc_list.insert"
+             and any("len(self.doc_list) == 1" in c and "':' in" in c for c in e.cond_texts())
+             and (not mp or e.node.lineno < mp[0].lineno)]
+    rep.ob("a one-line comment containing ':' is not mistaken for metadata", bool(guard), "", py.nloc(rm))
     mk = py.func("FortranBase.markdown")
-    t = ast.unparse(mk)
-    ok = "md.reset().convert(textwrap.dedent('\\n'.join(self.doc_list)), context=self)" in t
+    conv = [c for c in py.walk_calls(mk) if isinstance(c.func, ast.Attribute) and c.func.attr == "convert"]
+    ok = bool(conv) and any(k.arg == "context" and ast.unparse(k.value) == "self" for k in conv[0].keywords) and \
+        any("self.doc_list" in ast.unparse(a) and "dedent" in ast.unparse(a) for a in conv[0].args)
     rep.ob("markdown() converts the dedented body with the entity as context", ok, "", py.nloc(mk))
     # read_metadata runs in every constructor before conversion
     fb = py.func("FortranBase.__init__")
@@ -295,8 +302,9 @@ def r7_meta_key_guard(ctx, rep):
                    "a continuation line is only taken when a metadata key is open" if guarded else
                    "`meta[key].append(...)` can run while key is None: a doc comment whose first line is indented by four "
                    "blanks (a code block) is swallowed as metadata of key None and dropped", py.nloc(c))
-    t = ast.unparse(loop[0])
-    ok = "lines.insert(0, line)" in t and "break" in t
+    putback = [c for c in py.walk_calls(loop[0]) if isinstance(c.func, ast.Attribute) and c.func.attr in ("insert", "appendleft")
+               and c.args and ast.unparse(c.args[0]) in ("0",)]
+    ok = bool(putback) and any(isinstance(x, ast.Break) for x in ast.walk(loop[0]))
     rep.ob("meta_preprocessor: the first non-metadata line is put back", ok, "", py.nloc(loop[0]))
     if n == 0:
         raise AnalysisError("meta_preprocessor: no meta[key].append found")
